@@ -526,18 +526,12 @@ func (h *handler1) handleConnect(ctx context.Context, snConnect *snPkts1.Connect
 	// The ProtocolId [...] is coded 0x01. All other values are reserved.
 	// MQTT-SN specification v. 1.2, chapter 5.3.8
 	if snConnect.ProtocolID != 0x01 {
-		reply := &snPkts1.Connack{
-			ReturnCode: snPkts1.RC_NOT_SUPPORTED,
-		}
-		return h.snSend(reply)
+		return h.snSend(snPkts1.NewConnack(snPkts1.RC_NOT_SUPPORTED))
 	}
 
 	if h.state.Get() == util.StateAwake {
 		h.setState(util.StateActive)
-		reply := &snPkts1.Connack{
-			ReturnCode: snPkts1.RC_ACCEPTED,
-		}
-		return h.snSend(reply)
+		return h.snSend(snPkts1.NewConnack(snPkts1.RC_ACCEPTED))
 	}
 
 	// The MQTT-SN specification does not explicitly forbid zero keepalive
@@ -548,10 +542,7 @@ func (h *handler1) handleConnect(ctx context.Context, snConnect *snPkts1.Connect
 	// exploitable memory leaks.
 	// Hence, we simply do not accept zero keepalive.
 	if snConnect.Duration == 0 {
-		reply := &snPkts1.Connack{
-			ReturnCode: snPkts1.RC_NOT_SUPPORTED,
-		}
-		return h.snSend(reply)
+		return h.snSend(snPkts1.NewConnack(snPkts1.RC_NOT_SUPPORTED))
 	}
 
 	h.keepAlive = snConnect.Duration
